@@ -661,8 +661,8 @@ fn main() {
         std::process::exit(if bad == 0 { 0 } else { 1 });
     }
     let rep = Report::new(PROP, tier, cli.seed);
-    let max_len = tier.pick(6usize, 7usize);
-    let bfs_len = tier.pick(5usize, 6usize);
+    let max_len = tier.pick(6usize, 8usize);
+    let bfs_len = tier.pick(5usize, 7usize);
     rep.rule("(a) every byte string of length <= L over the alphabet {-,=,a,1,.,e,C3,A9,E2,82,AC,FF} is lexed and checked against the byte model; (b) for every string of length <= Lb that is short-shaped, BFS over all histories of ShortFlags calls {next_flag,next_value_os,advance_by(0|1|2),is_empty,is_negative_number,clone} deduplicated on the iterator's remaining output; non-trivial = strings that are long- or short-shaped (a decomposition exists to be checked)");
     rep.set("bounds", json!({"alphabet_bytes": ALPHA.len(), "max_len": max_len, "bfs_max_len": bfs_len}));
     rep.assume("byte strings longer than the bound and bytes outside the 12-byte boundary alphabet are not explored");
